@@ -10,6 +10,9 @@ import (
 	"verifharness/memcluster"
 )
 
+// DebugLogger, if set, replaces the silent logger.
+var DebugLogger gocql.StdLogger
+
 // Config returns a ClusterConfig wired to the in-memory cluster: no control connection, no host
 // lookup, the given protocol version, one connection per host, silent logger.
 func Config(cl *memcluster.Cluster, proto int, ips ...string) *gocql.ClusterConfig {
@@ -23,6 +26,9 @@ func Config(cl *memcluster.Cluster, proto int, ips ...string) *gocql.ClusterConf
 	cfg.ReconnectInterval = 0
 	cfg.WriteCoalesceWaitTime = 0
 	cfg.Logger = log.New(ioutil.Discard, "", 0)
+	if DebugLogger != nil {
+		cfg.Logger = DebugLogger
+	}
 	cfg.PoolConfig.HostSelectionPolicy = gocql.RoundRobinHostPolicy()
 	cfg.Consistency = gocql.One
 	gocql.VerifDisableControlConn(cfg)
